@@ -34,6 +34,12 @@ CLAIMED = {
  'C11': dict(
    text="Proof for all finite non-zero vectors in the non-overflowing range, binary32 and binary64: in each of the eight angle kernels the value passed to acos is within [-1,1] and not NaN and the stored angle is within [0, pi] (CBMC contracts; Magnitude and Dot are replaced by their own bit-precisely proved range contracts); the ~22 quantity-level angle constructors delegate to the kernel of their value type on their own stored vectors; the dot product is symmetric bit for bit; over the reals the acos argument equals a.b/(|a||b|), lies in [-1,1] (Cauchy-Schwarz) and is symmetric (z3).",
    ref="DESIGN.md 5 C11", note="libm acos contract assumed (range, NaN-freedom on [-1,1]). Directions are assumed to satisfy their representation invariant (C10). Agreement with atan2 to 1e-7 rad is not machine-checked. The defect found on the original tree (unclamped cosine -> NaN) is repaired by a fix: commit and recorded in known_findings.txt."),
+ 'C12': dict(
+   text="Proof over the reals for all admissible materials (mu > 0, lambda >= 0): each of the 20 modulus-pair constructors, given the pair computed from (mu0, lambda0) by the identities of isotropic elasticity, stores exactly (mu0, lambda0) (including the two square-root constructors); each of the 7 accessors returns its identity in (mu, lambda), so rebuilding from any reported pair reproduces the model; every Stress overload equals 2 mu eps + lambda tr(eps) I and ignores the strain rate; every Strain overload inverts it; strain-rate-only arguments give zero; every pure virtual of ConstitutiveModel has exactly one overrider with identical signature (z3 nlsat on VCs generated from the instantiated AST).",
+   ref="DESIGN.md 5 C12", note="REAL semantics: per-type rounding of the three overloads is not machine-checked. For the pair (lambda, nu) the round trip is required only for nu > 0 ((0,0) does not determine mu). AST taken from a scratch copy of include/ with the three forward-declaration defaults removed (clang rejects them). Thorough tier repeats for float and long double model types."),
+ 'C13': dict(
+   text="Proof over the reals for all mu > 0, mu_b >= 0 and all symmetric tensors: every Stress(strain rate) overload of both Newtonian fluid models equals 2 mu D (+ mu_b tr(D) I), every StrainRate overload inverts it, strain-only and stress-only stubs return zero, the compressible model built from mu alone stores mu_b == 0, strain arguments are ignored, and every pure virtual has exactly one overrider (z3 nlsat on VCs generated from the instantiated AST). Linearity follows from equality with the linear form.",
+   ref="DESIGN.md 5 C13", note="REAL semantics (rounding not machine-checked); same extraction note as C12."),
 }
 REASONS = {'C19': "static-initialisation order is a property of the compilers' start-up schedule, not of any function's pre/postcondition; CBMC has no model of C++ dynamic initialisation and contracts cannot express it (DESIGN.md 6)"}
 checks = []
